@@ -14,6 +14,7 @@ import (
 // Profile selects which features a generated case uses.
 type Profile struct {
 	Abstract bool   // interfaces and unions (served by reflection with registered types)
+	LitDirs  bool   // with Dirs: conditions are literals only (selections that have no operation to declare variables in)
 	Args     bool   // field arguments (Resolver / root-resolver strategies only)
 	Strategy string // R | A | X | RX | RA
 	Hostile  bool   // hostile leaf values (C05)
@@ -578,7 +579,11 @@ func (g *docGen) genDirs(label string) []hx.DirUse {
 	mk := func(name string, lab string) hx.DirUse {
 		b := rapid.Bool().Draw(g.t, lab+"v")
 		var v hx.Val
-		switch rapid.IntRange(0, 2).Draw(g.t, lab+"src") {
+		src := rapid.IntRange(0, 2).Draw(g.t, lab+"src")
+		if g.p.LitDirs {
+			src = 0
+		}
+		switch src {
 		case 0:
 			v = hx.Bool(b)
 		case 1:
